@@ -491,6 +491,31 @@ def run_depth(job, io):
         # break the cycles so that the collector has nothing odd to do
         a.clear(), d.clear(), dq.clear(), n.children.clear(), od.clear()
     else:
+        # bottoms: what sits at the deepest level — a leaf, or a childless NODE (which a traversal may treat differently
+        # from a leaf when it decides where to count depth)
+        bottoms = (('leaf', lambda: U.Leaf(1)), ('none', lambda: None), ('empty-list', lambda: []), ('empty-tuple', lambda: ()),
+                   ('empty-dict', lambda: {}), ('empty-deque', lambda: deque()), ('empty-namedtuple', lambda: U.NT0()),
+                   ('childless-custom', lambda: U.CA([])), ('empty-odict', lambda: OrderedDict()), ('empty-ddict', lambda: defaultdict(int)))
+        for bname, bottom in bottoms[1:]:
+            for delta in (-1, 0, 1):
+                # the bottom node itself sits at depth L + delta (it is a node, so it counts as one more level than a leaf would)
+                tree = nest(kind, L + delta, bottom())
+                got = {}
+                for tname, f in trav.items():
+                    io.progress({'site': 'depth:%s:%s:%+d:%s' % (kind, bname, delta, tname)})
+                    try:
+                        f(tree)
+                        got[tname] = 'ok'
+                    except RecursionError:
+                        got[tname] = 'RE'
+                keys.add('depth|%s|%s|%+d|%s' % (kind, bname, delta, ''.join(sorted(set(got.values())))))
+                # none_is_leaf traversals legitimately see None as a leaf; compare within each none_is_leaf group
+                grp_a = {k: v for k, v in got.items() if not k.endswith('_nil')}
+                if len(set(grp_a.values())) != 1:
+                    viol('depth-disagree', 'depth:%s:%s:%+d' % (kind, bname, delta), 'traversals disagree for a %s at depth L%+d below nested %s: %r' % (bname, delta, kind, got))
+                elif delta <= 0 and set(grp_a.values()) != {'ok'}:
+                    viol('depth-limit', 'depth:%s:%s:%+d' % (kind, bname, delta), 'tree with a %s at depth L%+d (<= limit) is rejected: %r' % (bname, delta, got))
+                del tree
         for delta in (-1, 0, 1, 2):
             tree = nest(kind, L + delta, U.Leaf(1))
             got = {}
